@@ -2,7 +2,8 @@ package main
 
 // C14: graceful drain honoured and bounded by DrainTimeout.  Real http.Server, real clock.
 // k concurrent handlers sleep d_i ignoring their context; when all of them are inside their handler the
-// stop trigger fires (Stop(), context cancel, or a Reload with a changed configuration).  Observed: the
+// stop trigger fires (Stop(), cancel or DEADLINE of the context given to Run(), a Stop() shortly before such a deadline, or a
+// Reload with a changed configuration).  Observed: the
 // duration of the trigger call, whether the drain-timeout error was reported, and per request whether its
 // full response had arrived when the trigger returned.  This is the only family that compares wall-clock
 // durations; the bands are computed by the model (HttpDrain.drain_check) from drain, the remaining
@@ -37,12 +38,18 @@ const (
 
 var errPortTaken = errors.New("the reserved port was taken by another process")
 
+// errLate: the runner was not Running early enough before the deadline of Run's context (loaded machine): the case is run again
+var errLate = errors.New("the runner was not ready in time before the deadline of Run's context")
+
 type drainCase struct {
 	ID       string `json:"id"`
 	DrainMs  int    `json:"drain_ms"`
 	NewDrain int    `json:"new_drain_ms,omitempty"` // reload trigger: DrainTimeout of the NEW configuration (0 = same)
 	Ds       []int  `json:"ds"`
-	Trigger  string `json:"trigger"` // stop|cancel|reload
+	// Trigger: stop | cancel | reload | deadline (the context given to Run() carries a DEADLINE - context.WithDeadline -
+	// and its expiry, with the requests in flight, is what ends Run) | stopnear (Run's context carries a deadline and
+	// Stop() is called 40 ms before it expires).  Whatever ends the context, the drain bound is DrainTimeout.
+	Trigger string `json:"trigger"`
 	// PreReload: before the requests are fired the server is replaced once by an effective Reload (changed read
 	// timeout), so that the server being drained is one that Reload booted, not the one Run booted
 	PreReload bool `json:"pre_reload,omitempty"`
@@ -108,6 +115,16 @@ func runDrainCase(c drainCase) (drainObs, error) {
 		return obs, err
 	}
 	ctx, cancel := context.WithCancel(context.Background())
+	var ctxDeadline time.Time
+	if c.Trigger == "deadline" || c.Trigger == "stopnear" {
+		cancel()
+		lead := 1500 * time.Millisecond
+		if c.PreReload {
+			lead = 2500 * time.Millisecond
+		}
+		ctxDeadline = time.Now().Add(lead)
+		ctx, cancel = context.WithDeadline(context.Background(), ctxDeadline)
+	}
 	defer cancel()
 	runRes := make(chan error, 1)
 	go func() { runRes <- runner.Run(ctx) }()
@@ -132,6 +149,18 @@ func runDrainCase(c drainCase) (drainObs, error) {
 		if st := runner.GetState(); st != "Running" {
 			return obs, fmt.Errorf("preparatory Reload did not return with Running: %s", st)
 		}
+	}
+	if !ctxDeadline.IsZero() {
+		// the requests are fired shortly before the deadline of Run's context, so that what they still need when the
+		// context ends is close to their nominal duration
+		before := 60 * time.Millisecond
+		if c.Trigger == "stopnear" {
+			before = 100 * time.Millisecond
+		}
+		if time.Until(ctxDeadline) < before+30*time.Millisecond {
+			return obs, errLate
+		}
+		time.Sleep(time.Until(ctxDeadline) - before)
 	}
 	measuring.Store(true)
 	// fire the requests
@@ -167,15 +196,32 @@ func runDrainCase(c drainCase) (drainObs, error) {
 	if effDrain < 0 {
 		effDrain = 0 // a non-positive DrainTimeout is an already expired shutdown context: do not wait
 	}
+	switch c.Trigger {
+	case "deadline":
+		if time.Until(ctxDeadline) < 5*time.Millisecond {
+			return obs, errLate
+		}
+		time.Sleep(time.Until(ctxDeadline))
+	case "stopnear":
+		if time.Until(ctxDeadline) < 45*time.Millisecond {
+			return obs, errLate
+		}
+		time.Sleep(time.Until(ctxDeadline) - 40*time.Millisecond)
+	}
 	t0 := time.Now()
+	if c.Trigger == "deadline" {
+		t0 = ctxDeadline
+	}
 	trigDone := make(chan struct{})
 	var trigRet atomic.Int64 // the instant the trigger call returned, taken in its own goroutine
 	fin := func() { trigRet.Store(time.Now().UnixNano()); close(trigDone) }
 	switch c.Trigger {
-	case "stop":
+	case "stop", "stopnear":
 		go func() { runner.Stop(); fin() }()
 	case "cancel":
 		cancel()
+		go func() { err := <-runRes; runRes <- err; fin() }()
+	case "deadline": // nothing to call: the deadline of Run's context has just expired
 		go func() { err := <-runRes; runRes <- err; fin() }()
 	case "reload":
 		nd := c.DrainMs
@@ -386,6 +432,18 @@ func drainGrid(r *prng.R, n int, quick bool) []drainCase {
 			cs = append(cs, drainCase{DrainMs: 0, Ds: nil, Trigger: tr})
 		}
 	}
+	// Run's context carries a DEADLINE: its expiry as the stop trigger, and a Stop() 40 ms before it - the drain bound is
+	// DrainTimeout whatever ends the context (short request: completes, nil; long one: timeout at DrainTimeout; idle: nil)
+	for di, dr := range []int{150, 300} {
+		cs = append(cs, drainCase{DrainMs: dr, Ds: []int{dr / 3}, Trigger: "deadline"})
+		cs = append(cs, drainCase{DrainMs: dr, Ds: []int{dr*2/3 + 50}, Trigger: "stopnear"})
+		if !quick || di == 1 {
+			cs = append(cs, drainCase{DrainMs: dr, Ds: []int{dr*2 + 120}, Trigger: "deadline"})
+			cs = append(cs, drainCase{DrainMs: dr, Ds: nil, Trigger: "deadline"})
+			cs = append(cs, drainCase{DrainMs: dr, Ds: []int{dr / 4, dr*2 + 100}, Trigger: "stopnear"})
+			cs = append(cs, drainCase{DrainMs: dr, Ds: []int{dr / 3}, Trigger: "deadline", PreReload: true})
+		}
+	}
 	// a long drain with short requests: Stop must NOT wait out the timeout
 	add(1000, []int{80}, "stop")
 	add(1000, []int{40, 120}, "reload")
@@ -410,6 +468,9 @@ func drainGrid(r *prng.R, n int, quick bool) []drainCase {
 			}
 		}
 		c := drainCase{DrainMs: dr, Ds: ds, Trigger: prng.Pick(r, trigs), PreReload: r.Chance(1, 4)}
+		if r.Chance(1, 6) {
+			c.Trigger = prng.Pick(r, []string{"deadline", "stopnear"})
+		}
 		if r.Chance(1, 12) {
 			c.DrainMs = -r.Intn(2)
 			c.PreReload = false // with DrainTimeout <= 0 every effective Reload ends in Error (its stopServer times out)
@@ -461,7 +522,7 @@ func runDrain() {
 			defer wg.Done()
 			defer func() { <-sem }()
 			obs, err := runDrainCase(c)
-			for try := 0; err != nil && errors.Is(err, errPortTaken) && try < 3; try++ {
+			for try := 0; err != nil && (errors.Is(err, errPortTaken) || errors.Is(err, errLate)) && try < 3; try++ {
 				obs, err = runDrainCase(c) // another process took the reserved port: new port, same case
 			}
 			mu.Lock()
